@@ -44,6 +44,19 @@ def gen(rng):
         kerning[(a, b)] = Fr(-40)
     glyphs.append({"name": "acutecomb", "unicodes": [0x301], "width": 0, "contours": [],
                    "anchors": [("_top", Fr(0), Fr(500))] + ([("top", Fr(0), Fr(700))] if rng.random() < 0.5 else [])})
+    lib = {}
+    if rng.random() < 0.4:
+        # a glyph whose code point belongs to several scripts (U+02BC: Latn, Cyrl, Deva, ...) kerned against a glyph of the
+        # font, and a NON-EXPORTED glyph of one of those scripts that the font otherwise lacks
+        glyphs.append({"name": "apostrophemod", "unicodes": [0x2BC], "width": 200, "anchors": [], "contours": []})
+        kerning[("apostrophemod", SCRIPTS[tags[0]][0][0])] = Fr(-25)
+        absent = [t for t in ("cyrl", "latn", "dev2") if t not in tags]
+        if absent:
+            t = rng.choice(absent)
+            n, u = SCRIPTS[t][0]
+            glyphs.append({"name": n, "unicodes": [u], "width": 500, "anchors": [("top", Fr(250), Fr(700))], "contours": []})
+            kerning[(n, "apostrophemod")] = Fr(-10)
+            lib["public.skipExportGlyphs"] = [n]
     mode = rng.choice(["none", "dflt", "one", "all", "all+lang"])
     ls = []
     if mode != "none":
@@ -59,7 +72,8 @@ def gen(rng):
             if mode == "all+lang" and "latn" in tags:
                 ls.append(("latn", "TRK "))
     fea = "".join("languagesystem %s %s;\n" % sl for sl in ls)
-    return {"glyphs": glyphs, "kerning": kerning, "features": fea, "languagesystems": ls, "mode": mode}
+    return {"glyphs": glyphs, "kerning": kerning, "features": fea, "languagesystems": ls, "mode": mode, "lib": lib,
+            "exported_script_tags": sorted(set(tags) | ({"deva"} if "dev2" in tags else set()))}
 
 
 def explore(ctx):
@@ -93,6 +107,8 @@ def explore(ctx):
         meta.append(dict(case, observed={t: fs for t, fs in obs}, plain=plain))
         ctx.count()
         ctx.klass("languagesystems:" + desc["mode"])
+        if desc["lib"]:
+            ctx.klass("non-exported glyph of another script + multi-script glyph in kerning")
         if plain and kern_tags and len(obs) > 1:
             ctx.nontriv(("r", i, ctx.scale))
     vals = ctx.coq_eval(IMPORTS, FN, [G.tup(a, b) for a, b in cases], chunk=60, tag="Reach")
@@ -103,8 +119,11 @@ def explore(ctx):
             declared = {s for s, l in (case["font"]["languagesystems"] or [["DFLT", "dflt"]]) if l == "dflt"}
             missing = [(t, f) for t, fs in case["observed"].items() if ("kern" in fs or "dist" in fs)
                        for f in case["plain"] if f not in fs]
-            undeclared = [m for m in missing if m[0] not in declared]
-            real = [m for m in missing if m[0] in declared]
+            # F6 is about scripts of the font's own (exported) glyphs that no languagesystem statement names; a script
+            # that no exported glyph belongs to must not be registered at all
+            exported = set(case["font"]["exported_script_tags"]) | {"DFLT"}
+            undeclared = [m for m in missing if m[0] not in declared and m[0] in exported]
+            real = [m for m in missing if m[0] in declared or m[0] not in exported]
             if real or not missing:
                 ctx.spec_failure(dict(case, missing=real or "spec false"), "script(s) declared by languagesystem lack generated features: %r" % (real,))
             else:
